@@ -101,6 +101,10 @@ class Markup:
             if isinstance(r, ast.Dict):
                 return all(self.safe(v, fn, stack, attr=True) for v in r.values)
             return S(r)
+        if isinstance(e, ast.JoinedStr):
+            # f'<li>{a}</li>': constant markup with fields, every field must be safe markup itself (str() of it is inserted)
+            return all(isinstance(v, ast.Constant) or (isinstance(v, ast.FormattedValue) and v.format_spec is None and v.conversion in (-1, 115)
+                                                       and S(v.value)) for v in e.values)
         if isinstance(e, ast.Call):
             f = src(e.func)
             if f == 'html.escape':
